@@ -50,8 +50,9 @@ def check(tier, seed):
     t0 = time.time(); pid = "C19"
     rng = random.Random(seed)
     cov = {"checker_cmd": "make -C coq Properties_C19.vo && coqc -Q coq Econf coq/Properties_C19.v", "trusted_base": checklib.TRUSTED_BASE}
-    ps = checklib.proof_status(pid)
+    ps = checklib.proof_status(pid, tier)
     cov.update(obligations=ps["obligations"], discharged=ps["discharged"], theorems=ps["theorems"], axioms=ps["axioms"])
+    if "coqchk" in ps: cov["coqchk"] = {"exit": ps["coqchk"]["exit"], "axioms_of_all_loaded_libraries": ps["coqchk"]["axioms"], "unsafe": ps["coqchk"]["unsafe"]}
     exe, err = vlib.tool_binary()
     if exe is None:
         p = vlib.write_replay(pid, "build-failure.txt", "# econftool no longer builds\n" + err[-3000:])
